@@ -554,9 +554,13 @@ def HasInode (cfg : Cfg) (e : FileEntry) : Prop :=
   e.is_symlink = false → e.is_dir = false → cfg.hardlinks = true → 1 < e.nlink → e.inode.isSome = true
 
 /-- what a FAILED executor call leaves: the world as it was, or with the parent directories of `k` created
-    (`copy_file` calls `create_dir_all(parent)` before the transport's copy) -/
+    (`copy_file` calls `create_dir_all(parent)` before the transport's copy), or — `update` of a directory entry only —
+    with the symlink at `k` removed -/
 def Left (xw xw' : XWorld) (k : Engine.Path) : Prop :=
-  xw' = xw ∨ ∃ d, mkdirAll xw.w.dst (parentOf k) = some d ∧ xw' = { xw with w := { xw.w with dst := d } }
+  xw' = xw ∨ (∃ d, mkdirAll xw.w.dst (parentOf k) = some d ∧ xw' = { xw with w := { xw.w with dst := d } }) ∨
+    -- `update` of a directory entry (fix 862af11): the link at `k` was removed, then `create_dir_all` failed — which needs
+    -- a non-directory ABOVE the link, impossible in a parent-closed destination (`Engine.dirBase_closed`)
+    (∃ s, xw.w.dst.get? k = some (.symlink s) ∧ xw' = { xw with w := { xw.w with dst := xw.w.dst.erase k } })
 
 /-- result and world of an executor call against the model's answer: `some w'` ⇒ `Ok` and the world is `w'`;
     `none` ⇒ `Err` and what is left is described by `Left` -/
@@ -585,7 +589,7 @@ def fileArm (cfg : Cfg) (w : World) (k : Engine.Path) (m : FileMeta) (nlink : Na
 /-- the create/update arms of the model's `perform` outside a dry run, by payload -/
 def cuArm (cfg : Cfg) (w : World) (k : Engine.Path) (upd : Bool) : Payload → Option World
   | .nothing => some w
-  | .dir => mkdirW w k
+  | .dir => mkdirW (if upd then { w with dst := unlinkLink w.dst k } else w) k
   | .symlink text => writeSymlink w k text
   | .file m nlink => fileArm cfg w k m nlink upd
 
@@ -609,7 +613,7 @@ theorem perform_create (cfg : Cfg) (w : World) (k : Engine.Path) (pl : Payload) 
         | none => rfl
         | some n => cases n <;> rfl
     · simp [hc]
-  | _ => simp [perform, h, cuArm, mkdirW]
+  | _ => simp [perform, h, cuArm, mkdirW, dirBase]
 
 theorem perform_update (cfg : Cfg) (w : World) (k : Engine.Path) (pl : Payload) (h : cfg.dryRun = false) :
     perform cfg w ⟨.update, k, pl⟩ = cuArm cfg w k true pl := by
@@ -627,7 +631,7 @@ theorem perform_update (cfg : Cfg) (w : World) (k : Engine.Path) (pl : Payload) 
         | none => rfl
         | some n => cases n <;> rfl
     · simp [hc]
-  | _ => simp [perform, h, cuArm, mkdirW]
+  | _ => simp [perform, h, cuArm, mkdirW, dirBase]
 
 /-! ### the executors, arm by arm -/
 
@@ -640,17 +644,25 @@ theorem copy_file_ok (cfg : Cfg) (self : Transferrer) (xw : XWorld) (s : Rs.Path
   | none => unfold writeFile at hw; simp [hm] at hw
   | some d => simp only [hs, hw]
 
-theorem copy_file_err (cfg : Cfg) (self : Transferrer) (xw : XWorld) (s : Rs.Path) (k : Engine.Path)
+/-- a failed `copy_file` leaves the world as it was or with the parents of `k` created (never the third case of `Left`) -/
+theorem copy_file_err_strong (cfg : Cfg) (self : Transferrer) (xw : XWorld) (s : Rs.Path) (k : Engine.Path)
     (hk : CleanPath k) (hw : ∀ sm, xw.src s = .file sm → writeFile (stripX cfg) xw.w k sm = none) :
-    ∃ xw', runM (self.copy_file (extOf cfg) s (destOf xw.root k)) xw = (.error .io, xw') ∧ Left xw xw' k := by
+    ∃ xw', runM (self.copy_file (extOf cfg) s (destOf xw.root k)) xw = (.error .io, xw') ∧
+      (xw' = xw ∨ ∃ d, mkdirAll xw.w.dst (parentOf k) = some d ∧ xw' = { xw with w := { xw.w with dst := d } }) := by
   rw [copy_file_run cfg self xw s k hk]
   cases hm : mkdirAll xw.w.dst (parentOf k) with
   | none => exact ⟨xw, rfl, Or.inl rfl⟩
   | some d =>
     cases hs : xw.src s with
-    | dangling => exact ⟨_, rfl, Or.inr ⟨d, hm, rfl⟩⟩
-    | dir => exact ⟨_, rfl, Or.inr ⟨d, hm, rfl⟩⟩
-    | file sm => simp only [hw sm hs]; exact ⟨_, rfl, Or.inr ⟨d, hm, rfl⟩⟩
+    | dangling => exact ⟨_, rfl, Or.inr ⟨d, rfl, rfl⟩⟩
+    | dir => exact ⟨_, rfl, Or.inr ⟨d, rfl, rfl⟩⟩
+    | file sm => simp only [hw sm hs]; exact ⟨_, rfl, Or.inr ⟨d, rfl, rfl⟩⟩
+
+theorem copy_file_err (cfg : Cfg) (self : Transferrer) (xw : XWorld) (s : Rs.Path) (k : Engine.Path)
+    (hk : CleanPath k) (hw : ∀ sm, xw.src s = .file sm → writeFile (stripX cfg) xw.w k sm = none) :
+    ∃ xw', runM (self.copy_file (extOf cfg) s (destOf xw.root k)) xw = (.error .io, xw') ∧ Left xw xw' k := by
+  obtain ⟨xw', h1, h2⟩ := copy_file_err_strong cfg self xw s k hk hw
+  exact ⟨xw', h1, h2.elim Or.inl (fun h => Or.inr (Or.inl h))⟩
 
 /-- the follow arm's payload written by the model = the stripped copy -/
 theorem writeFile_followMeta (cfg : Cfg) (w : World) (k : Engine.Path) (sm : FileMeta) :
@@ -811,15 +823,95 @@ theorem create_agree (cfg : Cfg) (self : Transferrer) (ha : Agrees self cfg) (xw
             (fun hw => copy_file_err cfg self xw e.path k hk (fun sm' hs' => by rw [hsm] at hs'; cases hs'; exact hw))
 
 
-/-- an `update` call is never planned for a plain directory entry (`plan_file_async` answers Skip or Create for a
-    directory, src/sync/strategy.rs; see `update_dir_differs_from_model` in Props for what happens otherwise) -/
+/-- the entry is not a plain directory (kept for the readers of older statements: since fix 862af11 `update` of a plain
+    directory entry IS planned — for a destination link standing where the source has a directory — and is bridged by
+    `update_dir_agree`; `update_agree` needs no such hypothesis any more) -/
 def NotPlainDir (e : FileEntry) : Prop := e.is_symlink = false → e.is_dir = false
 
-theorem update_agree (cfg : Cfg) (self : Transferrer) (ha : Agrees self cfg) (xw : XWorld) (e : FileEntry)
-    (k : Engine.Path) (hk : CleanPath k) (hread : Readable cfg e) (hsrc : SrcFile xw e) (hino : HasInode cfg e)
-    (hnd : NotPlainDir e) :
+/-- `Rs.capture` (a `Result` kept as a value): the computation runs, its outcome is the value, nothing is thrown -/
+theorem runM_capture_eq {W α : Type} (x : Rs.M W α) (w : W) :
+    runM (Rs.capture x) w = ((.ok (runM x w).1 : Except Rs.Err (Except Rs.Err α)), (runM x w).2) := by
+  simp only [runM, Rs.capture]
+  rfl
+
+/-- `read_link` on the instance: the text of a symlink node, `None` for anything else; the world is untouched -/
+theorem read_link_run (cfg : Cfg) (o : Rs.Opaque) (xw : XWorld) (k : Engine.Path) (hk : CleanPath k) :
+    runM ((extOf cfg).t_read_link o (destOf xw.root k)) xw =
+      (.ok (match xw.w.dst.get? k with | some (.symlink t) => some t.toList | _ => none), xw) := by
+  show runM (op fun xw => xw.at (destOf xw.root k) fun k =>
+    some ((match xw.w.dst.get? k with | some (.symlink t) => some t.toList | _ => none), xw.w)) xw = _
+  rw [runM_op, at_destOf xw _ rfl k hk]
+  rfl
+
+/-- BRIDGE, `update` of a plain directory entry (fix 862af11: `read_link` probe, `remove(path, false)` of a link,
+    `create_dir_all`) = the `.dir` arm of the model's `perform` under `.update`, for EVERY node at the key: nothing or a
+    directory (`create_dir_all` alone), a regular file (the probe answers "no link", `create_dir_all` fails: EEXIST), a
+    symlink (unlinked as itself, then the directory is created) -/
+theorem update_dir_agree (cfg : Cfg) (self : Transferrer) (ha : Agrees self cfg) (xw : XWorld) (e : FileEntry)
+    (k : Engine.Path) (hk : CleanPath k) (hs : e.is_symlink = false) (hdir : e.is_dir = true) :
     Agree xw k (runM (self.update (extOf cfg) e (destOf xw.root k)) xw)
       (perform cfg xw.w (absTask cfg xw .update e k)) := by
+  obtain ⟨hdry, hhl, hlm⟩ := ha
+  cases hd : cfg.dryRun with
+  | true =>
+    rw [perform_dry cfg _ _ hd]
+    rw [hd] at hdry
+    unfold Transferrer.update
+    simp only [hdry, ↓reduceIte]
+    refine ⟨none, ?_⟩
+    split <;> rfl
+  | false =>
+    rw [hd] at hdry
+    unfold absTask
+    rw [perform_update cfg _ _ _ hd]
+    unfold Transferrer.update
+    simp only [hdry, hs, hdir, Bool.false_eq_true, ↓reduceIte, Bool.not_true, Bool.false_and, runM_bind,
+      runM_capture_eq, read_link_run cfg _ xw k hk, absPayload, cuArm]
+    cases hg : xw.w.dst.get? k with
+    | none =>
+      have hu : unlinkLink xw.w.dst k = xw.w.dst := unlinkLink_of_not_link _ _ (by simp [hg])
+      simp only [runM_bind, runM_pure, create_directory_run cfg self xw k hk, hu]
+      cases mkdirW xw.w k with
+      | none => exact ⟨xw, rfl, Or.inl rfl⟩
+      | some w' => exact ⟨none, rfl⟩
+    | some n =>
+      cases n with
+      | dir =>
+        have hu : unlinkLink xw.w.dst k = xw.w.dst := unlinkLink_of_not_link _ _ (by simp [hg])
+        simp only [runM_bind, runM_pure, create_directory_run cfg self xw k hk, hu]
+        cases mkdirW xw.w k with
+        | none => exact ⟨xw, rfl, Or.inl rfl⟩
+        | some w' => exact ⟨none, rfl⟩
+      | file m =>
+        have hu : unlinkLink xw.w.dst k = xw.w.dst := unlinkLink_of_not_link _ _ (by simp [hg])
+        simp only [runM_bind, runM_pure, create_directory_run cfg self xw k hk, hu]
+        cases mkdirW xw.w k with
+        | none => exact ⟨xw, rfl, Or.inl rfl⟩
+        | some w' => exact ⟨none, rfl⟩
+      | symlink t =>
+        have hu : unlinkLink xw.w.dst k = xw.w.dst.erase k := unlinkLink_of_link _ _ t hg
+        have hrm : runM ((extOf cfg).t_remove self.transport (destOf xw.root k) false) xw =
+            (.ok (), { xw with w := { xw.w with dst := xw.w.dst.erase k } }) := by
+          simp only [extOf_t_remove, runM_op, at_destOf xw _ rfl k hk, removeW, hg, Option.map_some, outcome_some]
+        simp only [runM_bind, runM_pure, hrm, hu]
+        have hcd := create_directory_run cfg self { xw with w := { xw.w with dst := xw.w.dst.erase k } } k hk
+        simp only [] at hcd
+        rw [hcd]
+        cases hmk : mkdirW { xw.w with dst := xw.w.dst.erase k } k with
+        | none => exact ⟨_, rfl, Or.inr (Or.inr ⟨t, hg, rfl⟩)⟩
+        | some w' => exact ⟨none, rfl⟩
+
+theorem update_agree (cfg : Cfg) (self : Transferrer) (ha : Agrees self cfg) (xw : XWorld) (e : FileEntry)
+    (k : Engine.Path) (hk : CleanPath k) (hread : Readable cfg e) (hsrc : SrcFile xw e) (hino : HasInode cfg e) :
+    Agree xw k (runM (self.update (extOf cfg) e (destOf xw.root k)) xw)
+      (perform cfg xw.w (absTask cfg xw .update e k)) := by
+  by_cases hpd : e.is_symlink = false ∧ e.is_dir = true
+  · exact update_dir_agree cfg self ha xw e k hk hpd.1 hpd.2
+  have hnd : NotPlainDir e := by
+    intro hs
+    cases hdir : e.is_dir with
+    | false => rfl
+    | true => exact absurd ⟨hs, hdir⟩ hpd
   have ha' := ha
   obtain ⟨hdry, hhl, hlm⟩ := ha
   cases hd : cfg.dryRun with
